@@ -36,15 +36,15 @@ Fixpoint propagation_ok (calls : list op) : bool :=
   | _ :: r => propagation_ok r
   end.
 
-Definition step_spec (c : cfgT) (w : wobs) (s : step) : bool :=
-  match s_cmd s with
+Definition step_spec (c : cfgT) (w : wobs) (v : sview) : bool :=
+  match v_cmd v with
   | CMount n =>
-    if negb (plain_env (s_env s)) then true else
-    let f := wo_fs w in let w' := after w s in
+    if negb (plain_env (v_env v)) then true else
+    let f := wo_fs w in let w' := v_after v in
     let m := layers_on_disk c f in
     let ch := chain c f n in
     let exp := expected_chain_mounts c ch in
-    let calls := syscalls (s_oplog s) in
+    let calls := syscalls (v_log v) in
     (* whatever the outcome: ordering, propagation, nothing stacked, nothing outside *)
     subseq (mount_targets calls) (map em_target exp)
     && propagation_ok calls
@@ -57,14 +57,14 @@ Definition step_spec (c : cfgT) (w : wobs) (s : step) : bool :=
          | OUmount _ _ => false
          | _ => true
          end)
-    && match s_res s with
+    && match v_res v with
        | ROk => mount_post c f m ch (ks_tab (wo_ks w'))
        | _ => true
        end
   | _ => true
   end.
 
-Definition spec (c : case) : bool := along (step_spec (c_cfg c)) (w0 c) (c_steps c).
+Definition spec (c : case) : bool := along_views (step_spec (c_cfg c)) (w0 c) (c_steps c).
 Definition wf := LC.wf.
 Definition kf (c : case) : N := 0.
 Definition verdict (c : case) : N := mkverdict (wf c) (LC.corr c) (spec c) (kf c).
